@@ -233,7 +233,9 @@ Smooth(D, names, j, row, u, hu) ==
       lo == Shift(row, j, -hu)
       hi == Shift(row, j, hu)
       okAt(r) == JointDefined(D, names, r, u) /\ ~JointZero(D, names, r, u)
-  IN /\ okAt(row) /\ okAt(lo) /\ okAt(hi)
+  IN /\ okAt(row)
+     \* numgrad returns all zeros when ANY of its 3*dim evaluations is -inf: the whole stencil must be inside
+     /\ \A q \in 1..Len(names) : okAt(Shift(row, q, -hu)) /\ okAt(Shift(row, q, hu))
      /\ \A i \in 1..Len(names) :
           LET n == names[i]
               dn == D.dist[n]
